@@ -150,6 +150,47 @@ def lift_example(kc, shapes):
     return e
 
 
+def twin_hierarchies_fn():
+    """two hierarchies whose lower levels are identical and that differ only in whether the chromosome level has a parent of its own, built one after
+    the other in one process (real, process-wide Parent cache): each lift-over answers for ITS OWN hierarchy"""
+    from inscripta.biocantor.location.location_impl import SingleInterval
+    from inscripta.biocantor.parent import Parent
+
+    def build(deep, cs, cl):
+        top = Parent(id="asm", sequence_type="assembly") if deep else None
+        chrom = Parent(id="chr1", sequence_type="chromosome", location=SingleInterval(100, 400, PLUS), parent=top)
+        feat = Parent(id="feat", sequence_type="feature", location=SingleInterval(10, 60, MINUS), parent=chrom)
+        return SingleInterval(cs, cs + cl, PLUS, parent=feat)
+
+    def answers(loc):
+        out = []
+        for typ in ("feature", "chromosome", "assembly"):
+            try:
+                up = loc.lift_over_to_first_ancestor_of_type(typ)
+                out.append((typ, up.start, up.end, up.strand.name, up.parent.id if up.parent else None))
+            except (NoSuchAncestorException, BioCantorException) as e:
+                out.append((typ, type(e).__name__))
+            out.append(loc.has_ancestor_of_type(typ))
+        return out
+
+    def fn(cs, cl, order):
+        cs, cl, order = concretize(cs, cl, order)
+        with untraced():
+            # reference answers: each hierarchy built alone from an empty cache
+            ref = {}
+            for deep in (False, True):
+                Parent.cache_clear()
+                ref[deep] = answers(build(deep, cs, cl))
+            if ref[True] == ref[False]:
+                return False  # the two hierarchies must be distinguishable (the deep one has an assembly ancestor)
+            Parent.cache_clear()
+            seq = [(False, True), (True, False), (True, True), (False, False)][order]
+            locs = [(build(d, cs, cl), d) for d in seq]
+            return all(answers(l) == ref[d] for l, d in locs) and all(answers(l) == ref[d] for l, d in reversed(locs))
+
+    return fn
+
+
 def no_ancestor_fn():
     def fn(**kw):
         cb = layout_blocks(1, kw, "c")
@@ -413,4 +454,9 @@ def obligations(tier):
                                     "is the library's sorted normal form, cf. F12)" % kc,
                                bounds="child %d block(s) (gaps >= 0), placement 2 overlapping blocks with distinct starts, unbounded symbolic coordinates" % kc,
                                examples=[ex]))
+    out.append(Obl("lift_twin_hierarchies", twin_hierarchies_fn(), dict(cs=int, cl=int, order=int),
+                   lambda cs, cl, order: 0 <= cs and 1 <= cl and cs + cl <= 50 and 0 <= order and order <= 3 and (cs % 7 == 1) and (cl % 9 == 2 or cl == 1), budget=300, cost=20,
+                   desc="two hierarchies identical below the chromosome level, one with and one without an assembly above it, built in either order in one process "
+                        "(real Parent cache): lift-over and ancestor tests answer for each location's own hierarchy, before and after the other one is used",
+                   bounds="child interval grid inside a 50-nt feature, 4 build orders (realised, native body)", examples=[dict(cs=1, cl=2, order=0), dict(cs=8, cl=11, order=1)]))
     return out
